@@ -47,6 +47,8 @@ type evidence struct {
 	KnownFindings   int
 	Problems        int
 	Wall            float64
+	Monitor         map[string]interface{}
+	RaceCandidates  int
 }
 
 func newEvidence(id, tier string, seed int64, spec *PropSpec) *evidence {
@@ -170,6 +172,10 @@ func (ev *evidence) write() error {
 		"rule":                          "states = feasible paths of the symbolic execution (each a distinct decision sequence: solver-checked branch directions, exhaustive structural splits, solver-enumerated size/index values); transitions = decisions taken; every sx.Assert on every path is an SMT obligation over all values of the symbolic inputs",
 		"evaluations":                   states,
 		"distinct_nontrivial":           states,
+	}
+	if ev.Monitor != nil {
+		cov["lock_discipline_monitor"] = ev.Monitor
+		cov["race_candidates"] = ev.RaceCandidates
 	}
 	if ev.Spec.Explanation != "" {
 		cov["explanation"] = ev.Spec.Explanation
